@@ -589,6 +589,37 @@ def r4_9(ctx):
             ctx.bad("R4.9", fi.module, fi.qual, okmsg, badmsg, fi.node.lineno)
 
 
+def r4_10(ctx):
+    """Shape of FETCH's implicit flag changes (arm-exact): \\Seen is set exactly by a BODY fetch that is not PEEK, \\Recent is
+    cleared exactly by a FLAGS fetch, both only for messages that had the flag state to change, never in a read-only session;
+    memory and the re-read .mh_sequences are changed alike (Seen/unseen as complements); every changed message is announced
+    to the sessions with its complete flag list."""
+    from .common import pm_of
+
+    p = ctx.p
+    fi = p.func("mbox.Mailbox.fetch")
+    ctx.analysed(fi)
+    pm = pm_of(p, fi)
+    checks = [
+        ("if elt.attribute == 'body' and elt.peek is False:\n    fetched_body_seen = True", "implicit \\Seen is triggered exactly by BODY without PEEK"),
+        ("if elt.attribute == 'flags':\n    fetched_flags = True", "\\Recent is dropped exactly by a FLAGS fetch"),
+        ("if fetched_flags:\n    if msg_key in self.sequences['Recent']:\n        no_longer_recent_msgs.add(msg_key)", "only messages that are \\Recent are queued for losing it"),
+        ("if fetched_body_seen:\n    if msg_key in self.sequences['unseen']:\n        no_longer_unseen_msgs.add(msg_key)", "only unseen messages are queued for becoming \\Seen"),
+        ("if (no_longer_unseen_msgs or no_longer_recent_msgs) and (not read_only):\n    ...", "flag changes are applied only when there is one and the session is not read-only"),
+        ("notifies_for = no_longer_unseen_msgs | no_longer_recent_msgs", "every changed message is announced"),
+        ("for msg_key in no_longer_recent_msgs:\n    self.sequences['Recent'].discard(msg_key)\n    seqs['Recent'].discard(msg_key)", "\\Recent cleared in memory and in the file's sequences alike"),
+        ("for msg_key in no_longer_unseen_msgs:\n    self.sequences['unseen'].discard(msg_key)\n    seqs['unseen'].discard(msg_key)\n    if msg_key not in self.sequences['Seen']:\n        self.sequences['Seen'].add(msg_key)\n        seqs['Seen'].add(msg_key)", "unseen dropped and Seen added together, in memory and file"),
+        ("for sequence in self.sequences.keys():\n    if msg_key in self.sequences[sequence]:\n        flags.append(seq_to_flag(sequence))", "the announced flag list holds exactly the sequences the message is in"),
+        ("msg_seq_number = self._msg_key_to_idx[msg_key] + 1", "announced under the message's sequence number"),
+        ("await self._dispatch_or_pend_notifications(notifies)", "announced to every session through the ordered channel"),
+    ]
+    for pat, what in checks:
+        if pm.has(pat):
+            ctx.ok("R4.10", where(fi), what)
+        else:
+            ctx.bad("R4.10", fi.module, fi.qual, what, f"FETCH's implicit flag handling lost: {what}", fi.node.lineno)
+
+
 def run(ctx):
     ctx.do(r4_7)
     ctx.do(r4_6)
@@ -602,6 +633,7 @@ def run(ctx):
     ctx.do(r4_5)
     ctx.do(r4_8)
     ctx.do(r4_9)
+    ctx.do(r4_10)
     from . import c10, c16
     ctx.do(c16.r16_2)
     from . import c12
